@@ -3,7 +3,7 @@
 Template directives (lines starting with //@):
 
   //@include <path-rel-to-/verif>          splice another template file here
-  //@gsub <regex> => <replacement>         applied to every item extracted after this line
+  //@gsub <regex> =>> <replacement>         applied to every item extracted after this line
   //@extract <src> <selector>              start an extraction block; <src> is a path relative to /repo,
                                            or 'registry:<crate-dir-glob>/<path>' for a dependency source
      //@ret <name>                         name the return value:  -> T   becomes  -> (name: T)
@@ -15,9 +15,10 @@ Template directives (lines starting with //@):
      //@loop <k>                           raw lines placed before the '{' of loop k (1-based, source order)
      //@loop_body_start <k>                raw lines placed right after the '{' of loop k
      //@after_loop <k>                     raw lines placed right after the '}' of loop k
+     //@loop_body_end <k>                  raw lines placed right before the '}' of loop k
      //@before <nth> <needle>              raw lines placed before the nth occurrence of needle in the item
      //@after <nth> <needle>               raw lines placed after  the nth occurrence of needle
-     //@sub <count> <regex> => <repl>      regex rewrite on the item text with an expected match count
+     //@sub <count> <regex> =>> <repl>      regex rewrite on the item text with an expected match count
      //@derive A, B                        replace the item's derive list (default: only Clone/Copy survive)
      //@keep_attrs                         keep all attributes (default: only whitelisted derives survive)
      //@header_only                        emit only the signature + contract followed by ';' (trait method decl)
@@ -53,6 +54,54 @@ class Line:
     def __init__(self, text, origin):
         self.text = text
         self.origin = origin  # ("repo", relpath, lineno) | ("tmpl", relpath, lineno)
+
+
+_VIRTUAL = {}
+
+
+def expand_macro(spec):
+    """expand:<repo-rel-file>:<macro_rules name>:<arg> -> text of the single arm with $var replaced by arg.
+    Line structure of the macro body is preserved; origin lines are those of the macro definition."""
+    _, f, name, arg = spec.split(":", 3)
+    path = os.path.join(REPO, f)
+    if not os.path.exists(path):
+        raise Undecided("anchor lost: file %s missing" % f)
+    src = open(path, encoding="utf-8").read()
+    try:
+        item, toks = rustlex.find_item(src, "macro:" + name)
+    except KeyError as e:
+        raise Undecided(str(e))
+    # body: { ($t:ty) => { ... }; }
+    k = item.body_tok + 1
+    if toks[k].text != "(":
+        raise Undecided("macro %s: unsupported shape" % name)
+    pc = rustlex.match_close(toks, k)
+    var = None
+    for q in range(k, pc):
+        if toks[q].text == "$":
+            var = toks[q + 1].text
+    k = pc + 1
+    while toks[k].text != "{":
+        k += 1
+    bc = rustlex.match_close(toks, k)
+    a, b = toks[k].end, toks[bc].start
+    body = src[a:b]
+    if var is None:
+        raise Undecided("macro %s: no variable" % name)
+    body = re.sub(r"\$" + var + r"\b", arg, body)
+    # keep line numbering: prefix with as many newlines as precede the body in the file
+    return "\n" * src.count("\n", 0, a) + body
+
+
+def read_src(src):
+    if src.startswith("expand:"):
+        if src not in _VIRTUAL:
+            _VIRTUAL[src] = expand_macro(src)
+        return _VIRTUAL[src]
+    path = resolve_src(src)
+    if not os.path.exists(path):
+        raise Undecided("anchor lost: file %s missing" % src)
+    return open(path, encoding="utf-8").read()
 
 
 def resolve_src(src):
@@ -113,10 +162,7 @@ def _loc(src, off):
 
 def render_extraction(ex, gsubs, canary=None):
     """Return (list[Line], info dict)."""
-    path = resolve_src(ex.src)
-    if not os.path.exists(path):
-        raise Undecided("anchor lost: file %s missing" % ex.src)
-    src = open(path, encoding="utf-8").read()
+    src = read_src(ex.src)
     try:
         item, toks = rustlex.find_item(src, ex.selector)
     except KeyError as e:
@@ -181,6 +227,8 @@ def render_extraction(ex, gsubs, canary=None):
             return toks[bo].end - lo_off
         if what == "after_close":
             return toks[rustlex.match_close(toks, bo)].end - lo_off
+        if what == "before_close":
+            return toks[rustlex.match_close(toks, bo)].start - lo_off
 
     sig_end = body_open
     for where, arg, lines in ex.inserts:
@@ -200,6 +248,8 @@ def render_extraction(ex, gsubs, canary=None):
             add(loop(int(arg), "after_open"), lines)
         elif where == "after_loop":
             add(loop(int(arg), "after_close"), lines)
+        elif where == "loop_body_end":
+            add(loop(int(arg), "before_close"), lines)
         elif where in ("before", "after"):
             nth, needle = arg
             pos = -1
@@ -316,7 +366,11 @@ def render_extraction(ex, gsubs, canary=None):
     joined = "\n".join(l.text for l in result)
     nlines = len(result)
     for count, rx, repl, lno in list(gsubs) + ex.subs:
-        new, n = re.subn(rx, repl, joined)
+        def _keep_lines(m, repl=repl):
+            out = m.expand(repl)
+            missing = m.group(0).count("\n") - out.count("\n")
+            return out + ("\n" * missing if missing > 0 else "")
+        new, n = re.subn(rx, _keep_lines, joined)
         if count is not None and n != count:
             raise Undecided("rewrite count mismatch in %s %s: /%s/ matched %d, expected %d (template %s:%d)"
                             % (ex.src, ex.selector, rx, n, count, ex.tmpl, lno))
@@ -358,6 +412,44 @@ def render_extraction(ex, gsubs, canary=None):
     return result, info
 
 
+def _expand_foreach(lines, rel):
+    out = []
+    i = 0
+    while i < len(lines):
+        s = lines[i].strip()
+        if s.startswith("//@foreach "):
+            head, vals = s[len("//@foreach "):].split(" in ", 1)
+            names = head.split()
+            block = []
+            i += 1
+            depth = 1
+            while i < len(lines):
+                s2 = lines[i].strip()
+                if s2.startswith("//@foreach "):
+                    depth += 1
+                if s2.startswith("//@endforeach"):
+                    depth -= 1
+                    if depth == 0:
+                        break
+                block.append(lines[i])
+                i += 1
+            if depth != 0:
+                raise Undecided("template error %s: unterminated foreach" % rel)
+            for v in vals.split():
+                parts = v.split(":")
+                if len(parts) != len(names):
+                    raise Undecided("template error %s: foreach arity" % rel)
+                sub = block
+                for n, pv in zip(names, parts):
+                    sub = [l.replace("{%s}" % n, pv) for l in sub]
+                out.extend(_expand_foreach(sub, rel))
+            i += 1
+            continue
+        out.append(lines[i])
+        i += 1
+    return out
+
+
 def parse_template(path, seen=None):
     """Yield ('line', Line) | ('extract', Extraction) | ('gsub', (rx, repl, lineno))."""
     rel = os.path.relpath(path, VERIF)
@@ -366,6 +458,7 @@ def parse_template(path, seen=None):
         raise Undecided("template include cycle: " + rel)
     seen = seen | {path}
     lines = open(path, encoding="utf-8").read().split("\n")
+    lines = _expand_foreach(lines, rel)
     i = 0
     while i < len(lines):
         ln = lines[i]
@@ -376,7 +469,7 @@ def parse_template(path, seen=None):
             i += 1
             continue
         if s.startswith("//@gsub "):
-            rx, repl = s[len("//@gsub "):].split(" =>", 1)
+            rx, repl = s[len("//@gsub "):].split(" =>>", 1)
             repl = repl[1:] if repl.startswith(" ") else repl
             yield ("gsub", (None, rx.strip(), repl.rstrip("\n"), i + 1))
             i += 1
@@ -413,13 +506,13 @@ def parse_template(path, seen=None):
                         ex.no_canary = True
                     elif name == "sub":
                         cnt, rest = arg.split(None, 1)
-                        rx, repl = rest.split(" =>", 1)
+                        rx, repl = rest.split(" =>>", 1)
                         repl = repl[1:] if repl.startswith(" ") else repl
-                        ex.subs.append((int(cnt), rx.strip(), repl, i + 1))
+                        ex.subs.append((None if cnt == "*" else int(cnt), rx.strip(), repl, i + 1))
                     elif name in ("contract", "body_start", "body_end", "prefix"):
                         cur = []
                         ex.inserts.append((name, None, cur))
-                    elif name in ("loop", "loop_body_start", "after_loop"):
+                    elif name in ("loop", "loop_body_start", "after_loop", "loop_body_end"):
                         cur = []
                         ex.inserts.append((name, arg.strip(), cur))
                     elif name in ("before", "after"):
